@@ -28,7 +28,8 @@ MASKS = [(False, False), (True, False), (False, True), (True, True)]
 FAULTS = ["none", "g0_false", "g1_false", "g1_raise", "s_false", "s_raise", "g2_false", "g2_raise", "work_raises", "work_falsy",
           "validate_false", "validate_raises", "validate_absent", "kill_in_work", "watchdog_in_work",
           "nested_work_raises", "nested_validate_false", "nested_validate_raises", "nested_ok",
-          "kill_in_g0_cp", "shutdown_in_g0_cp", "watchdog_in_g0_cp", "kill_in_s_cp", "kill_in_g2_cp"]
+          "kill_in_g0_cp", "shutdown_in_g0_cp", "watchdog_in_g0_cp", "kill_in_s_cp", "kill_in_g2_cp",
+          "work_raises_empty", "validate_raises_empty", "validate_assert", "g1_raise_empty"]
 
 
 def holders():
@@ -94,7 +95,7 @@ def run_case(ctx, n):
     mi = idx % len(MASKS)
     fault, holder, req, mask = FAULTS[fi], HOLDERS[hi], list(L[li]), MASKS[mi]
     rng = ctx.rng(n)
-    use_cell = (n % 8 == 3)
+    use_cell = rng.random() < 0.15      # (not a function of n modulo anything: every fault point must meet both entry points)
     clock = VClock()   # real 'now' as base: dataclass default factories captured the real utcnow
     desc = {"preemptable": {"r1": mask[0], "r2": mask[1], "r3": False}, "request": req, "holder": holder, "fault": fault,
             "entry": "IntegratedCell.execute" if use_cell else "CoordinationSystem.execute_operation", "followups": []}
@@ -135,6 +136,8 @@ def run_case(ctx, n):
                     return True
                 log.append("cp:" + kind)
                 ctx.count("checkpoint_faults_hit")
+                if kind.endswith("raise_empty"):
+                    raise Boom()
                 if kind.endswith("raise"):
                     raise Boom("checkpoint exploded")
                 if kind.startswith("kill_in"):
@@ -159,7 +162,7 @@ def run_case(ctx, n):
                 return False
             return cond
         phase_of = {"g0": Phase.G0, "g1": Phase.G1, "s": Phase.S, "g2": Phase.G2}
-        ph = phase_of.get(fault.split("_")[0]) if fault.endswith(("_false", "_raise")) else None
+        ph = phase_of.get(fault.split("_")[0]) if fault.endswith(("_false", "_raise", "_raise_empty")) else None
         if fault.endswith("_cp"):
             ph = phase_of[fault.split("_")[2]]
         if ph is not None:
@@ -177,6 +180,8 @@ def run_case(ctx, n):
                 ctx.count("nested_operations")
                 inner = system.execute_operation("inner", "agent-i", lambda: "inner-result", resources=["r4"], priority=OP_PRIO)
                 sampled["inner_success"] = inner.success
+            if fault == "work_raises_empty":
+                raise Boom()            # an exception without a message
             if fault in ("work_raises", "nested_work_raises"):
                 raise Boom("work failed")
             if fault == "kill_in_work":
@@ -193,6 +198,10 @@ def run_case(ctx, n):
 
         def validate(res):
             log.append("validate")
+            if fault == "validate_raises_empty":
+                raise ValueError()
+            if fault == "validate_assert":
+                assert res is None      # a bare assert: AssertionError without a message
             if fault in ("validate_raises", "nested_validate_raises"):
                 raise Boom("validator exploded")
             return fault not in ("validate_false", "nested_validate_false")
@@ -263,7 +272,7 @@ def run_case(ctx, n):
         if nwork > 1:
             viol("work-ran-twice", "work_fn ran %d times" % nwork)
             return
-        cp_blocks_before_work = fault in ("g0_false", "g1_false", "g1_raise")
+        cp_blocks_before_work = fault in ("g0_false", "g1_false", "g1_raise", "g1_raise_empty")
         if nwork == 1:
             if stopped is not None:
                 viol("work-without-resources:%s" % stopped, "work_fn ran although acquisition stopped (%s)" % stopped)
@@ -279,13 +288,14 @@ def run_case(ctx, n):
             viol("validate-ran-twice", "validate_fn ran %d times" % nval)
             return
         if nval == 1:
-            if nwork != 1 or fault in ("work_raises", "nested_work_raises") or log.index("validate") < log.index("work"):
+            if nwork != 1 or fault in ("work_raises", "nested_work_raises", "work_raises_empty") or log.index("validate") < log.index("work"):
                 viol("validate-before-work-completed", "validate ran with log %s" % log)
                 return
         # 4. success only if both succeeded
         if success:
-            ok = nwork == 1 and fault not in ("work_raises", "nested_work_raises") and (
-                vf is None or (nval == 1 and fault not in ("validate_false", "validate_raises", "nested_validate_false", "nested_validate_raises")))
+            ok = nwork == 1 and fault not in ("work_raises", "nested_work_raises", "work_raises_empty") and (
+                vf is None or (nval == 1 and fault not in ("validate_false", "validate_raises", "nested_validate_false", "nested_validate_raises",
+                                                           "validate_raises_empty", "validate_assert")))
             if not ok:
                 viol("success-without-work-and-validation:%s" % fault, "success reported with log %s under fault %s" % (log, fault))
                 return
